@@ -55,6 +55,8 @@ func ctxFromPackage(pkg map[string]any, env PkgCtx) (PkgCtx, string) {
 	}
 	if f, ok := cfg["flag"].(bool); ok {
 		c.Flag = f
+	} else {
+		c.NoFlag = true
 	}
 	return c, bad
 }
@@ -113,6 +115,14 @@ func classifyPackage(d *PkgDesc, c PkgCtx, cfgBad string, pullErr bool, otherSam
 		// nothing to duplicate: the package is valid
 	case d.Broken != "":
 		return "invalid:" + d.Broken
+	}
+	// a named CEL condition reading config.flag cannot be evaluated when the configuration has no such key
+	if c.NoFlag {
+		for _, cd := range d.Conds {
+			if strings.Contains(cd.Expr, "config.flag") {
+				return "cel-missing-config-key"
+			}
+		}
 	}
 	// templates referencing .config.label fail with missingkey=error when the label is absent
 	if !c.HasLabel {
@@ -296,6 +306,72 @@ func (m *C16Monitor) AfterPass(r *Runner, pv *PassView) error {
 		return Violf("C16", "deployment-template-differs-from-fresh-render", "pass %d: Package %s: ObjectDeployment template\n  %s\nreference render of the current spec\n  %s", pv.P.ID, name, trunc(string(gb), 1500), trunc(string(wb), 1500))
 	}
 	r.Labels["c16-template-verified"] = true
+	return nil
+}
+
+// AfterStep: "a changed image, config or component always results in an ObjectDeployment template equal to a fresh render
+// of the new spec": once the fair scheduler has run everything to quiescence, an admissible, unpaused Package whose image
+// can be pulled has a deployment carrying the fresh render of its current spec - whatever was edited, paused, unpaused or
+// failed on the way there.
+func (m *C16Monitor) AfterStep(r *Runner, idx int, st Step) error {
+	if st.Op != "quiesce" || !r.LastQuiesceOK || m.Env == nil {
+		return nil
+	}
+	for _, k := range r.W.ListKeys(engine.PKOGroup, "Package") {
+		pkg := r.W.Store.PeekNoCopy(k)
+		if pkg == nil || OwnerDeleting(pkg) {
+			continue
+		}
+		if p, _ := asMap(pkg["spec"])["paused"].(bool); p {
+			continue
+		}
+		image := asStr(asMap(pkg["spec"])["image"])
+		var desc *PkgDesc
+		for i := range r.Sc.Pkgs {
+			if imageName(i) == image {
+				desc = &r.Sc.Pkgs[i]
+			}
+		}
+		if desc == nil {
+			continue
+		}
+		env := PkgEnvs[mod(*m.Env, len(PkgEnvs))]
+		ctx, cfgBad := ctxFromPackage(pkg, env)
+		other := false
+		for _, ok := range r.W.ListKeys(engine.PKOGroup, "Package") {
+			if ok.Name == k.Name {
+				continue
+			}
+			oi := asStr(asMap(r.W.Store.PeekNoCopy(ok)["spec"])["image"])
+			for i := range r.Sc.Pkgs {
+				if imageName(i) == oi && r.Sc.Pkgs[i].Name == desc.Name {
+					other = true
+				}
+			}
+		}
+		if classifyPackage(desc, ctx, cfgBad, r.W.Puller.Errors[image] != "", other) != "" {
+			continue
+		}
+		r.Labels["c16-admissible-at-quiescence"] = true
+		dep := r.W.Store.PeekNoCopy(kubesim.Key{Group: engine.PKOGroup, Kind: "ObjectDeployment", Namespace: k.Namespace, Name: k.Name})
+		if dep == nil {
+			return Violf("C16", "admissible-package-not-deployed-at-quiescence", "after step %d: Package %s (image %s) is admissible and not paused, everything is quiescent, but no ObjectDeployment exists", idx, k.Name, image)
+		}
+		got, _ := kubesim.Normalize(map[string]any{"p": inlineTemplate(r, dep)})
+		want, _ := kubesim.Normalize(map[string]any{"p": desc.Expected(ctx)})
+		gp, wp := got["p"], want["p"]
+		if gp == nil {
+			gp = []any{}
+		}
+		if wp == nil {
+			wp = []any{}
+		}
+		if !kubesim.JSONEqual(gp, wp) {
+			gb, _ := json.Marshal(gp)
+			wb, _ := json.Marshal(wp)
+			return Violf("C16", "deployment-template-stale-at-quiescence", "after step %d: everything is quiescent but the ObjectDeployment template of Package %s\n  %s\nis not the render of its current spec\n  %s", idx, k.Name, trunc(string(gb), 1200), trunc(string(wb), 1200))
+		}
+	}
 	return nil
 }
 
